@@ -256,3 +256,54 @@ vharness! {
         std::mem::forget(e);
     }
 }
+
+// ---- operations pre-empted at their scheduling point (the count may change
+// ---- under them before they take effect)
+
+fn other_thread_drops_a_handle(e: &mut crate::rt::Execution) {
+    let r: crate::rt::object::Ref<State> = crate::rt::object::Ref::from_usize(0).downcast(&e.objects).unwrap();
+    r.get_mut(&mut e.objects).ref_cnt -= 1;
+    tv::activate(&mut e.threads, 1);
+}
+
+fn other_thread_clones(e: &mut crate::rt::Execution) {
+    let r: crate::rt::object::Ref<State> = crate::rt::object::Ref::from_usize(0).downcast(&e.objects).unwrap();
+    r.get_mut(&mut e.objects).ref_cnt += 1;
+    tv::activate(&mut e.threads, 1);
+}
+
+vharness! {
+    /// @prop C10,C11 @tier quick @mode fast @cost 2 @funcs Arc::ref_inc,Arc::branch,Execution::schedule,Path::branch_thread @bounds 2 threads, count 2..3; the cloning thread 1 is pre-empted at the scheduling point of clone(), thread 0 drops a handle meanwhile, then thread 1 continues
+    /// clone is atomic with respect to the count: a drop by another thread that is scheduled between the clone's scheduling point and its effect is not lost (count = count at resumption + 1).
+    #[cfg_attr(kani, kani::unwind(8))]
+    fn arc_clone_preempted_t1() {
+        let (mut e, a, n, _sync) = world(1);
+        kani::assume(n >= 2);
+        crate::rt::path::verif::seed_preempt(&mut e.path, 0, 2);
+        sched::set_interference(Some(other_thread_drops_a_handle));
+        sched::enter(&mut e, || a.ref_inc(Location::disabled()));
+        sched::set_interference(None);
+        assert!(sched::switches() == 1);
+        assert!(ref_cnt(a.state.get(&e.objects)) == n);
+        kani::cover!(n == 3, "3 -> 2 by the other thread, -> 3 by the clone");
+        std::mem::forget(e);
+    }
+}
+
+vharness! {
+    /// @prop C10,C11 @tier quick @mode fast @cost 2 @funcs Arc::ref_dec @bounds 2 threads, count 1..3; the dropping thread 1 is pre-empted at its scheduling point, thread 0 clones meanwhile
+    /// drop is atomic with respect to the count: it reports "last handle" from the count at the time it takes effect, not from the count when it was first scheduled.
+    #[cfg_attr(kani, kani::unwind(8))]
+    fn arc_drop_preempted_t1() {
+        let (mut e, a, n, _sync) = world(1);
+        crate::rt::path::verif::seed_preempt(&mut e.path, 0, 2);
+        sched::set_interference(Some(other_thread_clones));
+        let last = sched::enter(&mut e, || a.ref_dec(Location::disabled()));
+        sched::set_interference(None);
+        assert!(sched::switches() == 1);
+        assert!(!last);
+        assert!(ref_cnt(a.state.get(&e.objects)) == n);
+        kani::cover!(n == 1, "would have been the last handle without the concurrent clone");
+        std::mem::forget(e);
+    }
+}
